@@ -48,6 +48,9 @@ func Run(raw []byte) []trace.Event {
 	results := map[string]string{}
 	k := 0
 	for i := 1; i <= sc.N; i++ {
+		if sc.CondErrAt > 0 && i >= sc.CondErrAt {
+			break // not classified: the evaluation stops at the failing record
+		}
 		if sc.Mask[i-1] {
 			if k < len(sc.Out) {
 				results[fmt.Sprintf("s1#%d", i)] = kinds[sc.Out[k]]
@@ -66,7 +69,7 @@ func Run(raw []byte) []trace.Event {
 	ctx := context.Background()
 	inst, err := svc.Create(ctx, "pc", "verif-proc", processor.Parent{ID: "pl", Type: processor.ParentTypePipeline},
 		processor.Config{Settings: map[string]string{"gen": "1"}, Workers: 1}, processor.ProvisionTypeAPI,
-		`{{ eq .Metadata.m "1" }}`)
+		`{{ .Metadata.m }}`)
 	if err != nil {
 		l.Add("HarnessError", "what", "create: "+err.Error())
 		return l.Events()
@@ -82,12 +85,12 @@ func Run(raw []byte) []trace.Event {
 	}
 	recs := make([]opencdc.Record, sc.N)
 	for i := 1; i <= sc.N; i++ {
-		mv := "0"
+		mv := "false"
 		if sc.Mask[i-1] {
-			mv = "1"
+			mv = "true"
 		}
 		if sc.CondErrAt == i {
-			mv = "" // eq "" "1" is false - use a non-boolean producing value instead
+			mv = "neither" // the template's output is not a boolean: the condition cannot be evaluated
 		}
 		recs[i-1] = opencdc.Record{
 			Position: fakes.Pos("s1", i), Operation: opencdc.OperationCreate,
